@@ -22,6 +22,7 @@ func init() {
 	scenarios["ui_sizes"] = func(r *Run) { scenUI(r, uiOpts{sizes: true, paged: true}) }
 	scenarios["ui_hook"] = func(r *Run) { scenUI(r, uiOpts{rich: true, hookFocus: true}) }
 	scenarios["ui_hostile"] = func(r *Run) { scenUI(r, uiOpts{hostile: true, paged: true}) }
+	scenarios["ui_hook_race"] = func(r *Run) { scenUI(r, uiOpts{racing: true, rich: true, hookFocus: true}) }
 }
 
 type uiOpts struct {
@@ -128,7 +129,9 @@ func (g *keyGen) next() []byte {
 
 func scenUI(r *Run, o uiOpts) {
 	t := r.W
-	tn := buildTown(r, TownOpts{Hostile: o.hostile, RichLinks: o.rich, Paged: o.paged, Markdown: o.racing})
+	// some racing towns carry strings that the scrubber really alters (tabs, escapes): code that
+	// treats cleaning as a write then writes to documents shared between goroutines
+	tn := buildTown(r, TownOpts{Hostile: o.hostile || (o.racing && t.Chance(1, 3)), RichLinks: o.rich || (o.racing && t.Chance(1, 3)), Paged: o.paged, Markdown: o.racing})
 	w, h := 80, 24
 	if o.sizes || t.Chance(1, 3) {
 		w, h = 12+t.Draw(109), 2+t.Draw(39)
@@ -274,6 +277,9 @@ func scenUI(r *Run, o uiOpts) {
 		u.StopPoller()
 		quiet := r.Settle(stepCap)
 		uiLiveness(r, u, quiet)
+		if o.hookFocus {
+			checkHookRecords(r, u, tn)
+		}
 		return
 	}
 	// settled pacing
@@ -406,8 +412,15 @@ func checkHookRecords(r *Run, u *UISession, tn *Town) {
 		return out
 	}
 	add := func(l TLink) {
+		// (JSON strings lose their control characters on extraction, before the type is parsed)
+		mimeText := strings.Map(func(c rune) rune {
+			if c < 0x20 || c == 0x7f || (c >= 0x80 && c <= 0x9f) {
+				return -1
+			}
+			return c
+		}, l.Mime)
 		for _, h := range variants(l.Href) {
-			if e, _, _, ok := essenceOf(l.Mime); ok {
+			if e, _, _, ok := essenceOf(mimeText); ok {
 				cands = append(cands, cand{h, e})
 				continue
 			}
@@ -434,6 +447,10 @@ func checkHookRecords(r *Run, u *UISession, tn *Town) {
 		for _, l := range p.Media {
 			add(l)
 		}
+	}
+	// links that hostile bodies add (image and frame sources)
+	for _, extra := range []string{"https://media.example/i", "https://media.example/f"} {
+		cands = append(cands, cand{extra, "*/*"})
 	}
 	hasURL := false
 	for i, a := range hook {
